@@ -86,6 +86,7 @@ Definition validate_in_out (cfg : config) (i o : params) (c : client) : option a
   | Some e => Some e
   | None =>
     match validate_optionals cfg o c with
+    | Some (ARedirect e _) => Some (ARedirect e m)    (* fix: redirected with the merged, validated parameters *)
     | Some e => Some e
     | None =>
       match cf_profile cfg with
